@@ -100,7 +100,11 @@ def apply(I, st, f, args, kw, frame, node):
         return construct(I, st, f.name, args, kw, frame, node)
     if isinstance(f, FuncV):
         if isinstance(f.fn, ast.Lambda):
-            raise Unsupported('calling a lambda in %s' % frame.qual())
+            lam = f.fn
+            fake = ast.FunctionDef(name='<lambda>', args=lam.args, body=[ast.Return(value=lam.body)], decorator_list=[], returns=None)
+            ast.copy_location(fake, lam)
+            ast.fix_missing_locations(fake)
+            return I.run_fn(st, None, f.mod, fake, None, args, kw, frame.depth + 1, node)
         if len(args) == 1 and not kw and is_number_formatter(I, f):
             # pure rendering of one number as text: kept symbolic (the helper's own body is analysed by C07)
             return [(st, Cat([('fmt', args[0], '', 'fn:%s' % f.fn.name)]))]
